@@ -118,16 +118,20 @@ def build_repo(flags=None, tag="san"):
             os.replace(tmp, lib)
         exes = {}
         for name, extra in (("naken_asm", ['-DINCLUDE_PATH="/usr/local/share/naken_asm/include"']),
-                            ("naken_util", [])):
-            src = os.path.join(REPO, "main", name + ".cpp")
+                            ("naken_util", []),
+                            # the configuration /repo's own config.mak builds: the interactive loop reads with
+                            # readline() instead of fgets() (main/naken_util.cpp is the only user of READLINE)
+                            ("naken_util_rl", ["-DREADLINE"])):
+            src = os.path.join(REPO, "main", name.replace("_rl", "") + ".cpp")
             pre = run(["g++", "-E", "-P", "-I" + REPO, src] + extra + [f for f in flags if f.startswith("-D")])
             k = sha(pre.stdout + akey.encode())[:16]
             exe = os.path.join(BUILD, tag, "%s_%s" % (name, k))
             if not os.path.exists(exe):
                 for f in os.listdir(os.path.join(BUILD, tag)):
-                    if f.startswith(name + "_"):
+                    if f.startswith(name + "_") and not (name == "naken_util" and f.startswith("naken_util_rl_")):
                         os.unlink(os.path.join(BUILD, tag, f))
-                r = run(["g++", "-o", exe + ".tmp", src, lib, "-I" + REPO] + extra + flags)
+                r = run(["g++", "-o", exe + ".tmp", src, lib, "-I" + REPO] + extra + flags +
+                        (["-lreadline"] if name.endswith("_rl") else []))
                 if r.returncode != 0:
                     raise BuildError("link %s failed: %s" % (name, r.stderr.decode()[:3000]))
                 os.replace(exe + ".tmp", exe)
